@@ -2177,7 +2177,21 @@ impl AssociatedFile for AnnotationStore {
 
         //setting a filename may change the workdir of existing resources/datasets
         let workdir = self.dirname();
+        let moved = workdir != self.config.workdir;
         self.update_config(false, |config| config.workdir = workdir.clone());
+        if moved {
+            //stand-off files are looked for relative to the working directory, so that is where they have to be written (again)
+            for resource in self.resources.iter().flatten() {
+                if resource.filename().is_some() {
+                    resource.mark_changed();
+                }
+            }
+            for dataset in self.annotationsets.iter().flatten() {
+                if dataset.filename().is_some() {
+                    dataset.mark_changed();
+                }
+            }
+        }
 
         if self.filename().unwrap().ends_with(".json") {
             if let DataFormat::Json { .. } = self.config.dataformat {
